@@ -37,6 +37,8 @@ impl<T> Iterator for Probe<T> {
         self.items.next()
     }
     fn size_hint(&self) -> (usize, Option<usize>) {
+        // reading the wrapped iterator's state is a use of it as well (it must not race with `next`)
+        hooks::probe_read();
         let rem = self.items.len();
         match self.hint {
             Hint::Exact => (rem, Some(rem)),
@@ -125,6 +127,13 @@ fn intact_copy(case: &Case, v: &[CopyEl]) -> bool {
             .all(|(i, t)| t.id == i as u32 && t.val == val_of(case, i))
 }
 
+/// Pulls `case.pre` elements before the adaptor is applied (C13: adapting a partly consumed iterator).
+fn pre_pull<I: ConcurrentIter>(it: &I, case: &Case) {
+    for _ in 0..case.pre {
+        let _ = it.next();
+    }
+}
+
 /// Range bounds of a range case.
 pub fn range_bounds(case: &Case) -> (usize, usize) {
     let s = case.range_start;
@@ -185,6 +194,7 @@ pub fn with_source<B: Body>(case: &Case, body: B) -> (B::Out, bool) {
             let v = tracked_vec(case, led, 0);
             let info = table_info(case, addrs_of(&v), true);
             let it = IntoConcurrentIter::into_con_iter(v.as_slice());
+            pre_pull(&it, case);
             let out = body.run(it, &info);
             (out, intact_tracked(case, &v, led))
         }
@@ -200,12 +210,14 @@ pub fn with_source<B: Body>(case: &Case, body: B) -> (B::Out, bool) {
             let v = tracked_vec(case, led, n + case.extra_cap);
             let info = table_info(case, addrs_of(&v), true);
             let it = ConcurrentIterable::con_iter(&v);
+            pre_pull(&it, case);
             let out = body.run(it, &info);
             (out, intact_tracked(case, &v, led))
         }
         Kind::ArrRef => with_array!(n, |i| Tracked::new(i as u32, val_of(case, i), led), |a| {
             let info = table_info(case, addrs_of(&a), true);
             let it = ConcurrentIterable::con_iter(&a);
+            pre_pull(&it, case);
             let out = body.run(it, &info);
             (out, intact_tracked(case, &a, led))
         }),
@@ -317,27 +329,34 @@ pub fn with_source<B: Body>(case: &Case, body: B) -> (B::Out, bool) {
             let info = table_info(case, addrs_of(&v), true);
             let refs: Vec<&Tracked> = v.iter().collect();
             let it = IterIntoConcurrentIter::into_con_iter(Probe::new(refs, case.hint));
+            pre_pull(&it, case);
             let out = body.run(it, &info);
             (out, intact_tracked(case, &v, led))
         }
         Kind::ClonedSlice => {
             let v = tracked_vec(case, led, 0);
             let info = table_info(case, addrs_of(&v), true);
-            let it = IntoConcurrentIter::into_con_iter(v.as_slice()).cloned();
+            let it0 = IntoConcurrentIter::into_con_iter(v.as_slice());
+            pre_pull(&it0, case);
+            let it = it0.cloned();
             let out = body.run(it, &info);
             (out, intact_tracked(case, &v, led))
         }
         Kind::ClonedVecRef => {
             let v = tracked_vec(case, led, n + case.extra_cap);
             let info = table_info(case, addrs_of(&v), true);
-            let it = ConcurrentIterable::con_iter(&v).cloned();
+            let it0 = ConcurrentIterable::con_iter(&v);
+            pre_pull(&it0, case);
+            let it = it0.cloned();
             let out = body.run(it, &info);
             (out, intact_tracked(case, &v, led))
         }
         Kind::ClonedArrRef => {
             with_array!(n, |i| Tracked::new(i as u32, val_of(case, i), led), |a| {
                 let info = table_info(case, addrs_of(&a), true);
-                let it = ConcurrentIterable::con_iter(&a).cloned();
+                let it0 = ConcurrentIterable::con_iter(&a);
+                pre_pull(&it0, case);
+                let it = it0.cloned();
                 let out = body.run(it, &info);
                 (out, intact_tracked(case, &a, led))
             })
@@ -346,21 +365,27 @@ pub fn with_source<B: Body>(case: &Case, body: B) -> (B::Out, bool) {
             let v = tracked_vec(case, led, 0);
             let info = table_info(case, addrs_of(&v), true);
             let refs: Vec<&Tracked> = v.iter().collect();
-            let it = IterIntoConcurrentIter::into_con_iter(Probe::new(refs, case.hint)).cloned();
+            let it0 = IterIntoConcurrentIter::into_con_iter(Probe::new(refs, case.hint));
+            pre_pull(&it0, case);
+            let it = it0.cloned();
             let out = body.run(it, &info);
             (out, intact_tracked(case, &v, led))
         }
         Kind::CopiedSlice => {
             let v = copy_vec(case);
             let info = table_info(case, addrs_of(&v), true);
-            let it = IntoConcurrentIter::into_con_iter(v.as_slice()).copied();
+            let it0 = IntoConcurrentIter::into_con_iter(v.as_slice());
+            pre_pull(&it0, case);
+            let it = it0.copied();
             let out = body.run(it, &info);
             (out, intact_copy(case, &v))
         }
         Kind::CopiedVecRef => {
             let v = copy_vec(case);
             let info = table_info(case, addrs_of(&v), true);
-            let it = ConcurrentIterable::con_iter(&v).copied();
+            let it0 = ConcurrentIterable::con_iter(&v);
+            pre_pull(&it0, case);
+            let it = it0.copied();
             let out = body.run(it, &info);
             (out, intact_copy(case, &v))
         }
@@ -372,7 +397,9 @@ pub fn with_source<B: Body>(case: &Case, body: B) -> (B::Out, bool) {
             },
             |a| {
                 let info = table_info(case, addrs_of(&a), true);
-                let it = ConcurrentIterable::con_iter(&a).copied();
+                let it0 = ConcurrentIterable::con_iter(&a);
+                pre_pull(&it0, case);
+                let it = it0.copied();
                 let out = body.run(it, &info);
                 (out, intact_copy(case, &a))
             }
@@ -381,7 +408,9 @@ pub fn with_source<B: Body>(case: &Case, body: B) -> (B::Out, bool) {
             let v = copy_vec(case);
             let info = table_info(case, addrs_of(&v), true);
             let refs: Vec<&CopyEl> = v.iter().collect();
-            let it = IterIntoConcurrentIter::into_con_iter(Probe::new(refs, case.hint)).copied();
+            let it0 = IterIntoConcurrentIter::into_con_iter(Probe::new(refs, case.hint));
+            pre_pull(&it0, case);
+            let it = it0.copied();
             let out = body.run(it, &info);
             (out, intact_copy(case, &v))
         }
